@@ -32,8 +32,8 @@ func startNode() gen.Node {
 }
 
 func main() {
-	if len(os.Args) < 2 || os.Args[1] != "run" {
-		fmt.Fprintln(os.Stderr, "usage: pool run [flags]")
+	if len(os.Args) < 2 || (os.Args[1] != "run" && os.Args[1] != "orphans") {
+		fmt.Fprintln(os.Stderr, "usage: pool run|orphans [flags]")
 		os.Exit(2)
 	}
 	fs := flag.NewFlagSet(os.Args[1], flag.ExitOnError)
@@ -46,6 +46,10 @@ func main() {
 		fmt.Fprintln(os.Stderr, "watchdog: the run did not finish")
 		os.Exit(3)
 	})
+	if os.Args[1] == "orphans" {
+		runOrphans(*n, *out, *replay)
+		return
+	}
 	node := startNode()
 	o := util.NewOut("pool.run")
 
